@@ -2,7 +2,7 @@
 from ..facts import AnchorMissing, callee_def, op_place, op_const, is_bare
 from ..util import (SUBR, RTRAIT, ends, site, fn_key, callee_method, require, has_call, has_field, find_dispatch,
                     closure_bodies_created_in, transitive_closures, edge_is_true, src_field, edges_where,
-                    unreachable_without_edges, deep_atoms, direct_field)
+                    unreachable_without_edges, deep_atoms, direct_field, direct_place, origin)
 from ..fin import Fin, Need, NotAnalysable
 
 EXPLANATION = (
@@ -179,8 +179,13 @@ def rule_c(ctx):
                     okc = len(calls) == 1 and callee_method(calls[0][1]) == join
                     detail = "calls %s" % [callee_method(c[1]) for c in calls]
                     if okc:
-                        ex = norm(b.expr(calls[0][1]["args"][1]))
-                        okc = ex in ("(idx + pos)", "(pos + idx)")
+                        import re
+                        from ..widths import addends
+                        ex = norm(b.canon(calls[0][1]["args"][1]))
+                        ad = sorted(addends(ex))
+                        # index of the segment in `other` (from enumerate) + the position parameter
+                        okc = len(ad) == 2 and ad[1] == "arg3" and re.fullmatch(
+                            r"\(<std::iter::Enumerate<I> as std::iter::Iterator>::next\(&mut \$\d+\) as Some\)\.0", ad[0]) is not None
                         detail = "joins at %s" % ex
                     ctx.check(okc, "C05-C", "%s:%s→%s(idx+pos)" % (fname, vn, join), b.term(tb)["span"], b.id, detail)
                 else:
@@ -197,46 +202,60 @@ def norm(s):
 
 
 def rule_d(ctx):
+    import re
     F = ctx.facts
     b = F.one(RTRAIT + "append_columns_with_borders")
-    walks = 0
+    env = {}
+    # position walks: usize locals initialised to 0 and advanced by (column width + 1), the width being field 0 of
+    # the element the walk's iterator yielded
+    walks = []  # (cursor symbol, width expression)
+    other = []
     for l, loc in enumerate(b.locals):
-        if loc.get("name") != "pos":
+        if loc["ty"] != "usize" or any(r[0] == "arg" for r in b.defs()[l]):
             continue
-        defs = [r for r in b.defs()[l] if r[0] == "stmt" and r[1] in b.reachable()]
-        exprs = sorted(norm(b.expr(r[3]["rv"]["use"])) if "use" in r[3]["rv"] else "?" for r in defs)
-        walks += 1
-        ctx.check(exprs == ["(pos + (w + 1_usize))", "0_usize"], "C05-D", "walk#%d:pos+=w+1" % walks,
-                  defs[0][3]["span"] if defs else b.span, b.id, "definitions of the cursor: %s" % exprs)
-        # w is the column width of the element being walked
-        for r in defs:
-            if "use" in r[3]["rv"] and "w" in norm(b.expr(r[3]["rv"]["use"])):
-                at = b.atoms(r[3]["rv"]["use"])
-    ctx.floor("C05-D", "position walks", walks, 3)
-    # every local named w is field 0 of a line_sets element
-    nw = 0
-    for l, loc in enumerate(b.locals):
-        if loc.get("name") == "w":
-            nw += 1
-            ex = sorted({norm(b.expr(r[3]["rv"]["use"], expand_named=False)) for r in b.defs()[l] if r[0] == "stmt" and "use" in r[3]["rv"]})
-            okc = all(e.endswith(".0") for e in ex) and ex
-            ctx.check(bool(okc), "C05-D", "walk-width#%d:is-column-width" % nw, b.span, b.id, "w defined as %s" % ex)
+        ds = [r for r in b.defs()[l] if r[1] in b.reachable()]
+        zero = [r for r in ds if r[0] == "stmt" and (op_const((r[3].get("rv") or {}).get("use") or {}) or {}).get("int") == 0]
+        ups = [r for r in ds if r not in zero]
+        if not zero or not ups:
+            continue
+        k = b.canon(l, env=env)
+        forms = [norm(b.canon(r[3]["rv"]["use"], env=env)) if r[0] == "stmt" and "use" in r[3]["rv"] else "?" for r in ups]
+        m = [re.fullmatch(r"\(%s \+ \((.*next\(&mut \$\d+\) as Some\)(\.1)?\.0) \+ 1_usize\)\)" % re.escape(k), f) for f in forms]
+        if all(m):
+            for mm in m:
+                walks.append((k, mm.group(1)))
+        else:
+            other.append((l, k, forms, ups))
+    ctx.floor("C05-D", "position walks advancing by column width + 1", len(walks), 3)
+    # any other 0-initialised cursor that is used as a junction/merge position must be a walk
     joins = b.calls(lambda cd, t: callee_method(t) in ("join_below", "join_above"))
-    for bb, t in joins:
-        ex = norm(b.expr(t["args"][1]))
-        ctx.check(ex == "(pos + w)", "C05-D", "%s-at-pos+w" % callee_method(t), t["span"], b.id, "joins at %s" % ex)
-    ctx.floor("C05-D", "join calls in the first walk", len(joins), 2)
     ms = b.calls(lambda cd, t: callee_method(t) in ("merge_from_below", "merge_from_above"))
+    pos_syms = {k for k, _w in walks}
+    for bb, t in joins:
+        ex = norm(b.canon(t["args"][1], env=env))
+        okc = any(ex == "(%s + %s)" % (k, w) for k, w in walks)
+        ctx.check(okc, "C05-D", "%s-at-pos+w" % callee_method(t), t["span"], b.id,
+                  "joins at %s; the walks are %s" % (ex, walks))
+    ctx.floor("C05-D", "join calls in the first walk", len(joins), 2)
     for bb, t in ms:
-        ex = norm(b.expr(t["args"][2]))
-        ctx.check(ex == "pos", "C05-D", "%s-at-pos" % callee_method(t), t["span"], b.id, "merges at %s" % ex)
+        ex = norm(b.canon(t["args"][2], env=env))
+        ctx.check(ex in pos_syms, "C05-D", "%s-at-pos" % callee_method(t), t["span"], b.id,
+                  "merges at %s; walk cursors: %s (other 0-initialised counters: %s)" % (ex, sorted(pos_syms), [(k, f) for _l, k, f, _u in other]))
     ctx.floor("C05-D", "merge calls", len(ms), 2)
-    # resolved callees pair up: prev_border gets join_below/merge_from_below, next_border join_above/merge_from_above
+    # receivers pair up: the border created here (next_border) gets join_above/merge_from_above, the previous
+    # border (a different object) gets join_below/merge_from_below
+    recv = {}
     for bb, t in joins + ms:
-        recv = b.expr(t["args"][0])
-        m = callee_method(t)
-        want = "prev_border" if m.endswith("below") else "next_border"
-        ctx.check(want in recv, "C05-D", "%s-on-%s" % (m, want), t["span"], b.id, "receiver %s" % recv)
+        pl = direct_place(b, t["args"][0])
+        recv.setdefault(callee_method(t), set()).add(pl["l"] if pl is not None else None)
+    nb = b.calls(lambda cd, t: ends(cd, "BorderHoriz::<T>::new"))
+    created = {t["dest"]["l"] for bb, t in nb if is_bare(t["dest"])}
+    above = recv.get("join_above", set()) | recv.get("merge_from_above", set())
+    below = recv.get("join_below", set()) | recv.get("merge_from_below", set())
+    ctx.check(len(nb) == 1 and above == created, "C05-D", "join_above/merge_from_above-on-next_border", b.span, b.id,
+              "receivers %s, border created here %s" % (sorted(map(str, above)), sorted(created)))
+    ctx.check(None not in below and not (below & created) and below, "C05-D", "join_below/merge_from_below-on-prev_border", b.span, b.id,
+              "receivers %s" % sorted(map(str, below)))
     # separator: one push_char per non-last column
     pcs = b.calls(lambda cd, t: ends(cd, "TaggedLine::<T>::push_char"))
     if ctx.check(len(pcs) == 1, "C05-D", "one-separator-push", b.span, b.id, "%d push_char calls" % len(pcs)):
@@ -245,31 +264,33 @@ def rule_d(ctx):
         for (a, s) in b.cdeps_transitive(pbb):
             truth, src = edge_is_true(b, a, s)
             if src and src[0] == "bin" and src[1]["bin"] in ("Ne", "Eq"):
-                ea, eb = norm(b.expr(src[1]["a"])), norm(b.expr(src[1]["b"]))
-                if {ea, eb} == {"cellno", "last_cellno"}:
+                ea, eb = norm(b.canon(src[1]["a"], env=env)), norm(b.canon(src[1]["b"], env=env))
+                pair = [ea, eb] if "Enumerate" in ea else [eb, ea]
+                if re.fullmatch(r"\(<std::iter::Enumerate<I> as std::iter::Iterator>::next\(&mut \$\d+\) as Some\)\.0", pair[0]) and \
+                        re.fullmatch(r"\(<T, A>::len\(&\$\d+\) - 1_usize\)", pair[1]):
                     good = (truth is True) if src[1]["bin"] == "Ne" else (truth is False)
         ctx.check(good, "C05-D", "separator-iff-not-last-column", pt["span"], b.id, "")
-    for l, loc in enumerate(b.locals):
-        if loc.get("name") == "last_cellno":
-            ex = [norm(b.expr(r[3]["rv"]["use"])) for r in b.defs()[l] if r[0] == "stmt" and "use" in r[3]["rv"]]
-            ctx.check(ex == ["(<T, A>::len(&line_sets) - 1_usize)"], "C05-D", "last_cellno=len-1", b.span, b.id, str(ex))
-        if loc.get("name") == "tot_width":
-            ex = sorted(norm(b.expr(r[3]["rv"]["use"])) for r in b.defs()[l] if r[0] == "stmt" and "use" in r[3]["rv"])
-            ctx.check(ex == ["(tot_width + <impl usize>::saturating_sub(<T, A>::len(&line_sets), 1_usize))", "0_usize"],
-                      "C05-D", "tot_width=Σw+(n-1):outer", b.span, b.id, str(ex))
-    # Σw part lives in the first closure: tot_width += width
+    # next_border's width = Σ column widths + (n − 1)
     okc = False
-    for _bb, cb in transitive_closures(F, b):
-        for bb in cb.reachable():
-            for st in cb.stmts(bb):
-                if st["k"] == "assign" and st["lhs"]["p"] and "use" in st["rv"]:
-                    ex = norm(cb.expr(st["rv"]["use"]))
-                    if ex in ("(tot_width + width)", "(_1.tot_width + width)", "(*tot_width + width)") or \
-                            (ex.endswith("+ width)") and "tot_width" in ex):
-                        okc = True
-    ctx.check(okc, "C05-D", "tot_width=Σw+(n-1):sum", b.span, b.id, "")
-    nb = b.calls(lambda cd, t: ends(cd, "BorderHoriz::<T>::new"))
-    okc = len(nb) == 1 and norm(b.expr(nb[0][1]["args"][0])) == "tot_width"
+    if len(nb) == 1:
+        pl = direct_place(b, nb[0][1]["args"][0])
+        if pl is not None and is_bare(pl):
+            k = b.canon(pl["l"], env=env)
+            ex = sorted(norm(b.canon(r[3]["rv"]["use"], env=env)) for r in b.defs()[pl["l"]] if r[0] == "stmt" and "use" in r[3]["rv"])
+            okc = len(ex) == 2 and ex[1] == "0_usize" and re.fullmatch(
+                r"\(%s \+ <impl usize>::saturating_sub\(<T, A>::len\(&\$\d+\), 1_usize\)\)" % re.escape(k), ex[0]) is not None
+            ctx.check(okc, "C05-D", "tot_width=Σw+(n-1):outer", b.span, b.id, str(ex))
+            # Σw part lives in the column closure: *captured += sub_r.width
+            oks = False
+            for _bb, cb in transitive_closures(F, b):
+                for bb in cb.reachable():
+                    for st in cb.stmts(bb):
+                        if st["k"] == "assign" and st["lhs"]["p"] and "use" in st["rv"]:
+                            lhs = norm(cb.canon(st["lhs"]))
+                            ex2 = norm(cb.canon(st["rv"]["use"]))
+                            if lhs.startswith("up") and ex2.startswith("(%s + " % lhs) and ex2.endswith(".width)"):
+                                oks = True
+            ctx.check(oks, "C05-D", "tot_width=Σw+(n-1):sum", b.span, b.id, "")
     ctx.check(okc, "C05-D", "next_border-width=tot_width", b.span, b.id, "")
 
 
@@ -364,8 +385,16 @@ def rule_g(ctx):
             for x in region:
                 tt = cb.term(x)
                 if tt["k"] == "call" and callee_method(tt) == meth:
-                    w = norm(cb.expr(tt["args"][1]))
-                    okc = w.endswith("width")
+                    # the width is a captured variable whose value, where the closure is created, is the
+                    # sub-renderer's own width (`sub_r.width`)
+                    o = origin(cb, tt["args"][1])
+                    if o and o[0] == "place":
+                        ups = [e for e in o[1]["p"] if isinstance(e, dict) and "f" in e and str(e.get("o", "")).startswith("closure:")]
+                        if ups:
+                            for _pbb, pcb in transitive_closures(F, b):
+                                for (_cbb, _i, c2, ops, fields) in closure_bodies_created_in(F, pcb):
+                                    if c2.id == cb.id and ups[0]["f"] < len(ops):
+                                        okc = norm(pcb.canon(ops[ups[0]["f"]])).lstrip("&").endswith("arg2.width")
         ctx.check(okc, "C05-G", "normalise:%s→%s(width)" % (nm, meth), cb.span, fn_key(cb),
                   "a column's %s lines must be brought to the column width before the borders are collapsed and the padding "
                   "rows are derived" % nm.lower())
